@@ -1,1 +1,268 @@
-//! C14: not implemented yet.
+//! C14 — Building a poll request never fails.
+//!
+//! Engine E-IN, fully exhaustive over the stated finite space: cookie length 0..=1024
+//! (the cookie that is about to be sent) x stash fill 0..=8 x {AES-SIV-CMAC-256, -512}
+//! x the four `ProtocolVersion`s x poll exponent {min, max}, plus the 8 non-NTS cases
+//! (version x poll). Each case is one call of the real `NtpSource::handle_timer` on a
+//! fresh source; a panic is caught (= the daemon would abort).
+//!
+//! Oracle (from the statement): the result is either exactly `Reset`, or `Send(b)` +
+//! `SetTimer` with `b.len() <= 1024` where `b` is a well-formed request: checked at byte
+//! level by the harness (header version/mode/poll, extension fields framed to the end,
+//! exactly one cookie field carrying the cookie, authenticator verifying under C2S) and,
+//! as a second opinion, by the crate's own decoder and the real `Server`.
+use std::sync::Mutex;
+
+use super::c07::rig::*;
+use super::common::{self, Ctx};
+use crate::packet::NtpPacket;
+use crate::source::ProtocolVersion;
+use crate::time_types::{PollInterval, PollIntervalLimits};
+
+#[derive(Clone, Copy, Debug)]
+struct Case {
+    cfg: Cfg,
+    nts: bool,
+    poll_max: bool,
+    fill: usize,
+    len: usize,
+}
+
+fn trace_of(c: &Case) -> String {
+    format!("{}|{}|{}|{}|{}", c.cfg.name(), if c.nts { "nts" } else { "plain" }, if c.poll_max { "max" } else { "min" }, c.fill, c.len)
+}
+fn parse_case(t: &str) -> Option<Case> {
+    let p: Vec<&str> = t.split('|').collect();
+    if p.len() != 5 {
+        return None;
+    }
+    Some(Case { cfg: Cfg::parse(p[0])?, nts: p[1] == "nts", poll_max: p[2] == "max", fill: p[3].parse().ok()?, len: p[4].parse().ok()? })
+}
+
+fn cookie_of(len: usize) -> Vec<u8> {
+    (0..len).map(|i| (i % 251) as u8 ^ 0x5c).collect()
+}
+
+#[derive(Debug, PartialEq, Eq, Clone)]
+enum Res {
+    Send(usize),
+    Reset,
+    Bad(String, String),
+}
+
+fn run_case(c: &Case) -> Res {
+    let limits = PollIntervalLimits::default();
+    let desired = if c.poll_max { limits.max } else { limits.min };
+    let cookie = cookie_of(c.len);
+    let cookies = if c.nts {
+        let mut v = Vec::new();
+        if c.fill > 0 {
+            v.push(cookie.clone());
+            for i in 1..c.fill {
+                v.push(vec![i as u8; 100]);
+            }
+        }
+        Some(v)
+    } else {
+        None
+    };
+    super::block_on_paused(async {
+        let mut rig = Rig::with_cookies(c.cfg, cookies, limits, desired);
+        match rig.timer() {
+            Out::Panic(e) => Res::Bad("C14:panic".into(), format!("handle_timer panicked: {e}")),
+            Out::Reset => {
+                if !c.nts {
+                    return Res::Bad("C14:unexpected-action".into(), "a non-NTS source asked for a reset on its first poll".into());
+                }
+                Res::Reset
+            }
+            Out::Demobilize => Res::Bad("C14:unexpected-action".into(), "Demobilize from handle_timer on a fresh source".into()),
+            Out::Other(s) => Res::Bad("C14:unexpected-action".into(), format!("unexpected action list {s}")),
+            Out::Send(b, timer) => {
+                if c.nts && c.fill == 0 {
+                    return Res::Bad("C14:malformed-request".into(), "request sent without holding a cookie".into());
+                }
+                if b.len() > 1024 {
+                    return Res::Bad("C14:oversize".into(), format!("request of {} bytes", b.len()));
+                }
+                if let Err(e) = well_formed(&rig, c, &b, desired, &cookie) {
+                    return Res::Bad("C14:malformed-request".into(), e);
+                }
+                let secs = timer.as_secs_f64() / (1u64 << desired.as_log()) as f64;
+                if !(1.0..=1.06).contains(&secs) {
+                    return Res::Bad("C14:malformed-request".into(), format!("timer {timer:?} for poll exponent {}", desired.as_log()));
+                }
+                // second opinions: crate decoder and the real server
+                let dec = if c.nts { NtpPacket::deserialize(&b, rig.c2s.as_ref()).is_ok() } else { NtpPacket::deserialize(&b, &crate::packet::NoCipher).is_ok() };
+                if !dec {
+                    return Res::Bad("C14:machinery".into(), "harness walker accepts the request but the crate's decoder rejects it".into());
+                }
+                if rig.exchanges.last().and_then(|x| x.genuine.as_ref()).is_none() {
+                    return Res::Bad("C14:machinery".into(), "the real server ignored the request".into());
+                }
+                Res::Send(b.len())
+            }
+        }
+    })
+}
+
+fn well_formed(rig: &Rig, c: &Case, b: &[u8], desired: PollInterval, cookie: &[u8]) -> Result<(), String> {
+    if b.len() < 48 {
+        return Err(format!("{} bytes", b.len()));
+    }
+    let vn = (b[0] >> 3) & 7;
+    let mode = b[0] & 7;
+    // which of the two framings is used is a matter of version negotiation (C12), e.g. a
+    // fresh `UpgradedToV5` source falls back to NTPv4 before its first poll
+    if !(vn == 4 || vn == 5) || mode != 3 {
+        return Err(format!("version {vn} mode {mode}, expected a version 4 or 5 client request"));
+    }
+    if b[2] != desired.as_byte() {
+        return Err(format!("poll byte {} but the poll interval is {}", b[2], desired.as_byte()));
+    }
+    let (fields, end) = walk(b, 48);
+    if end != b.len() {
+        return Err(format!("extension fields stop at {end}, datagram has {} bytes", b.len()));
+    }
+    if !c.nts {
+        if fields.iter().any(|f| f.ty == T_COOKIE || f.ty == T_AUTH) {
+            return Err("NTS fields in a plain request".into());
+        }
+        return Ok(());
+    }
+    let ck: Vec<&Field> = fields.iter().filter(|f| f.ty == T_COOKIE).collect();
+    if ck.len() != 1 {
+        return Err(format!("{} cookie fields", ck.len()));
+    }
+    let body = &ck[0].body;
+    if body.len() < cookie.len() || &body[..cookie.len()] != cookie || body[cookie.len()..].iter().any(|x| *x != 0) {
+        return Err("cookie field does not carry the cookie".into());
+    }
+    let auth = fields.iter().find(|f| f.ty == T_AUTH).ok_or("no authenticator")?;
+    if open_at(&*rig.c2s, b, auth.off).is_none() {
+        return Err("authenticator does not verify under C2S".into());
+    }
+    let ph = fields.iter().filter(|f| f.ty == T_PLACEHOLDER).count();
+    if ph + 1 > 8usize.saturating_sub(c.fill - 1) {
+        return Err(format!("{ph} placeholders with {} cookies held", c.fill - 1));
+    }
+    Ok(())
+}
+
+fn all_cfgs() -> Vec<Cfg> {
+    let mut v = Vec::new();
+    for k512 in [false, true] {
+        for pv in [ProtocolVersion::V4, ProtocolVersion::v4_upgrading_to_v5_with_default_tries(), ProtocolVersion::UpgradedToV5, ProtocolVersion::V5] {
+            v.push(Cfg { pv, k512 });
+        }
+    }
+    v
+}
+
+fn replay(ctx: &Ctx, trace: &str) -> String {
+    let Some(c) = parse_case(trace) else { return "bad trace".into() };
+    let r = run_case(&c);
+    if let Res::Bad(class, what) = &r {
+        ctx.violation(class, what.clone(), trace.to_string());
+    }
+    format!("{r:?}")
+}
+
+#[test]
+fn check() {
+    let ctx = Ctx::new("C14");
+    if let Some(t) = common::replay_trace() {
+        let a = replay(&ctx, &t);
+        let b = replay(&ctx, &t);
+        common::report_replay("C14", &a, &b, ctx.violation_count() > 0);
+        return;
+    }
+    ctx.rule(
+        "every (cookie length 0..=1024 of the cookie about to be sent) x (stash fill 0..=8) x (256/512-bit session keys) x \
+         (ProtocolVersion V4, V4UpgradingToV5, UpgradedToV5, V5) x (poll exponent min 4 / max 10) for NTS sources, plus version x \
+         poll for non-NTS sources; one handle_timer call each on a fresh source. Extra (outside the exhaustive claim): lengths \
+         1025..=1100, 2048, 4096, 65531..=65540, 70000 at fill 1 and 8. distinct non-trivial = every case (each is a different \
+         size computation); outcome classes are counted.",
+    );
+    ctx.assume("the other held cookies (100 bytes each) only matter through their number");
+    let mut cases: Vec<Case> = Vec::new();
+    for cfg in all_cfgs() {
+        for poll_max in [false, true] {
+            for fill in 0..=8usize {
+                for len in 0..=1024usize {
+                    cases.push(Case { cfg, nts: true, poll_max, fill, len });
+                }
+            }
+        }
+    }
+    let exhaustive_n = cases.len();
+    for cfg in all_cfgs().into_iter().filter(|c| !c.k512) {
+        for poll_max in [false, true] {
+            cases.push(Case { cfg, nts: false, poll_max, fill: 0, len: 0 });
+        }
+    }
+    let core_n = cases.len();
+    let extra: Vec<usize> = (1025..=1100).chain([2048, 4096]).chain(65531..=65540).chain([70000]).collect();
+    for cfg in all_cfgs() {
+        for fill in [1usize, 8] {
+            for len in &extra {
+                cases.push(Case { cfg, nts: true, poll_max: false, fill, len: *len });
+            }
+        }
+    }
+    // (sends, resets, resets with fill>0, max request, min len reset (fill>0), max len send, resets where a 1-cookie request would fit)
+    let st = Mutex::new((0u64, 0u64, 0u64, 0usize, usize::MAX, 0usize, 0u64));
+    common::par_for(cases.len() as u64, 256, |i| {
+        let c = &cases[i as usize];
+        let r = run_case(c);
+        let mut s = st.lock().unwrap();
+        match &r {
+            Res::Send(n) => {
+                s.0 += 1;
+                s.3 = s.3.max(*n);
+                if c.nts {
+                    s.5 = s.5.max(c.len);
+                }
+            }
+            Res::Reset => {
+                s.1 += 1;
+                if c.fill > 0 {
+                    s.2 += 1;
+                    s.4 = s.4.min(c.len);
+                    // header 48 + uid 36 + cookie field + authenticator 40 (+ v5 draft id 28 and reference id request 20)
+                    let one = 48 + 36 + 4 + pad4(c.len) + 40 + if c.cfg.v5() && c.cfg.pv != ProtocolVersion::UpgradedToV5 { 48 } else { 0 };
+                    if one <= 1024 {
+                        s.6 += 1;
+                    }
+                }
+            }
+            Res::Bad(class, what) => {
+                drop(s);
+                ctx.violation(class, format!("[{}] {what}", trace_of(c)), trace_of(c));
+                ctx.distinct(common::hash_of(&trace_of(c)));
+                return;
+            }
+        }
+        drop(s);
+        ctx.distinct(common::hash_of(&trace_of(c)));
+        if i % 14_983 == 5 {
+            ctx.sample(format!("{} -> {r:?}", trace_of(c)));
+        }
+    });
+    let s = st.lock().unwrap();
+    ctx.set("evaluations", cases.len() as u64);
+    ctx.set("transitions", cases.len() as u64);
+    ctx.set("states", cases.len() as u64);
+    ctx.set("cases_exhaustive_nts", exhaustive_n as u64);
+    ctx.set("cases_plain", (core_n - exhaustive_n) as u64);
+    ctx.set("cases_extra_lengths", (cases.len() - core_n) as u64);
+    ctx.set("outcome_send", s.0);
+    ctx.set("outcome_reset", s.1);
+    ctx.set("outcome_reset_with_cookies_held", s.2);
+    ctx.set("largest_request_bytes", s.3 as u64);
+    ctx.set("shortest_cookie_causing_reset", if s.4 == usize::MAX { 0 } else { s.4 as u64 });
+    ctx.set("longest_cookie_sent", s.5 as u64);
+    ctx.set("resets_although_single_cookie_request_fits", s.6);
+    ctx.exhaustive(true);
+    ctx.finish();
+}
